@@ -32,7 +32,9 @@ INVARIANTS Integrity BoundedState EmitInRange OneSlotPerPacket {extra}
 """
 
 HON_TMPL = """SPECIFICATION MCSpec
+VIEW MCView
 CONSTANTS
+  GEN = {gen}
   Q = {q}
   MINPAY = 2
   MAXPKT = 7
@@ -41,7 +43,7 @@ CONSTANTS
   NCELL = 7
   FIXED = TRUE
   Depth = {depth}
-INVARIANTS Integrity BoundedState EmitInRange OneSlotPerPacket CompleteIfAllArrive HonestExact HonestNoMalformed
+INVARIANTS Integrity BoundedState EmitInRange OneSlotPerPacket CompleteIfAllArrive HonestExact HonestNoMalformed {extra}
 """
 
 
@@ -147,7 +149,7 @@ def run(c):
             c.violation("spec:%s" % inv, "design-level: invariant %s violated on MC_Reassembly (%s); see %s" % (inv, k, r.out_path), {"tlc_out": r.out_path})
         if r.ok:
             c.require_coverage(r, ["MCNext"])
-    r = c.tlc(SD, "MC_ReassemblyHonest", cfg=cfg(c, "mc_honest.cfg", HON_TMPL.format(q=2, depth=7 if thorough else 6)), timeout=1500)
+    r = c.tlc(SD, "MC_ReassemblyHonest", cfg=cfg(c, "mc_honest.cfg", HON_TMPL.format(q=2, depth=7 if thorough else 6, gen="FALSE", extra="")), timeout=1500)
     for inv in r.violated:
         c.violation("spec:%s" % inv, "design-level: invariant %s violated on MC_ReassemblyHonest; see %s" % (inv, r.out_path), {"tlc_out": r.out_path})
     # non-vacuity of the oracle: the pinned-commit completion rule (FIXED=FALSE) must violate Integrity
@@ -165,10 +167,17 @@ def run(c):
     total_replayed = 0
     nontrivial = set()
     mismatches = 0
+    # honest schedules (duplication / reordering / interleaving of 4 honest packets), deeper than the hostile ones
+    gens.append(dict(honest=True, q=2, depth=7 if thorough else 6))
+    gens.append(dict(honest=True, q=1, depth=6 if thorough else 5))
     for gi, k in enumerate(gens):
-        p = cfg(c, "gen_%d.cfg" % gi, MC_TMPL.format(maxpkt=64, maxf=64, ncell=10, fixed="TRUE", offs="{0,1,2,3,4,6}",
-                                                     lens="{0,1,2,3,4}", gen="TRUE", extra="Emit", **k))
-        r = c.tlc(SD, "MC_Reassembly", cfg=p, timeout=2400, coverage=False)
+        if k.get("honest"):
+            p = cfg(c, "gen_%d.cfg" % gi, HON_TMPL.format(q=k["q"], depth=k["depth"], gen="TRUE", extra="Emit"))
+            r = c.tlc(SD, "MC_ReassemblyHonest", cfg=p, timeout=2400, coverage=False)
+        else:
+            p = cfg(c, "gen_%d.cfg" % gi, MC_TMPL.format(maxpkt=64, maxf=64, ncell=10, fixed="TRUE", offs="{0,1,2,3,4,6}",
+                                                         lens="{0,1,2,3,4}", gen="TRUE", extra="Emit", **k))
+            r = c.tlc(SD, "MC_Reassembly", cfg=p, timeout=2400, coverage=False)
         hs = c.printed_json(r, "REPLAY")
         if not hs:
             c.fail_tool("generation run printed no behaviours")
